@@ -70,7 +70,7 @@ def run(ctx: core.Ctx) -> int:
     cases = [c["case"] for c in E.load_corpus("C02")]
     n_corpus = len(cases)
     for _ in range(ctx.n(260, 3000)):
-        c = E.gen_case(rng, ctx, X.KINDS, allow_ha=False)
+        c = E.gen_case(rng, ctx, X.KINDS + ["AMORPH"] * 3, allow_ha=False)
         n = len(c["rows"])
         c["cuts"] = sorted({rng.randint(1, n) for _ in range(3)}) if n >= 2 else []
         cases.append(c)
